@@ -126,9 +126,33 @@ def bsteps (toks : List String) : Option String := do
     s!"{col (fun s => recStr n s.recCur)}|{col (fun s => recStr n s.recBest)}|{col (fun s => toString s.costCur)}|{col (fun s => toString s.costBsf)}|{col (fun s => toString s.reward)}|{col (fun s => recStr n s.vt)}"
   pure s!"rows={"#".intercalate ((List.range b).map rowStr)}"
 
+/-- `improve.pdact n | last (empty or a b) | k` : DACT's mask entry at flat index `k` and the decoded move -/
+def pdact (toks : List String) : Option String := do
+  let [[n], last, [k]] ← parseSections toks | none
+  let n := n.toNat
+  let k := k.toNat
+  let lst : Option (Nat × Nat) := match last with
+    | [a, b] => some (a.toNat, b.toNat)
+    | _ => none
+  let m := Code.dactMove n k
+  pure s!"move={m.1},{m.2} mask={bit (dactMaskFlat n lst k)}"
+
+/-- `improve.pn2s gs | rec | last removal (empty or one) | pi k` : N2S' two masks and the decoded move -/
+def pn2s (toks : List String) : Option String := do
+  let [[gs], rc, last, [pi, k]] ← parseSections toks | none
+  let gs := gs.toNat
+  let rc := recOf rc
+  let vt := ofArr (arrOf gs (visitedTime gs rc))
+  let lst : Option Nat := match last with
+    | [a] => some a.toNat
+    | _ => none
+  let m := Code.n2sMove gs pi.toNat k.toNat
+  pure s!"move={m.1},{m.2.1},{m.2.2} rmask={bit (n2sRemovalMask lst pi.toNat)} mask={bit (Code.n2sReinsertMaskFlat gs vt pi.toNat k.toNat)}"
+
 def handlers : List (String × (List String → Option String)) :=
   [("improve.kopt2", kopt2), ("improve.koptk", koptk), ("improve.koptgen", koptgen),
    ("improve.pdprr", pdprr), ("improve.pdpmask", pdpmask), ("improve.spec", spec),
-   ("improve.steps", steps), ("improve.bsteps", bsteps)]
+   ("improve.steps", steps), ("improve.bsteps", bsteps),
+   ("improve.pdact", pdact), ("improve.pn2s", pn2s)]
 
 end Rl4co.Driver.Improve
